@@ -54,7 +54,9 @@ def make_sim(trace, mode, hz=True, dc=None, ic=None, prog=None):
     # (riscv_simulation.py:106-116), then place the instructions as the parser's last step does
     sim.state.memory.reset()
     sim.state.instruction_memory.reset()
-    sim.state.instruction_memory.write_instructions(ir.build(trace["prog"] if prog is None else prog))
+    objs = ir.build(trace["prog"] if prog is None else prog)
+    sim.state.instruction_memory.write_instructions(objs)
+    sim._dst_program = objs  # the instruction objects as the harness placed them
     regs = sim.state.register_file.registers
     for k, v in trace["regs"].items():
         regs[int(k)] = fixedint.UInt32(v)
@@ -87,6 +89,35 @@ class Decoy:
                 self.sim.step()
             except Exception:  # noqa: BLE001
                 self.sim = None
+
+
+def _stalled(pl):
+    """Pipeline.stalled is bookkeeping of the implementation (not used by the GUI or the tests); it is read for
+    coverage signatures and probes only, and a pipeline that keeps this state elsewhere is fine."""
+    st = getattr(pl, "stalled", None)
+    try:
+        return tuple(st) if st is not None else None
+    except TypeError:
+        return None
+
+
+class FetchSpy:
+    """Records every fetch the simulation performs: an instance-level wrapper around read_instruction of its
+    instruction memory (system); nothing in /repo changes.  The fetch stream is what C11's counters are
+    compared with - observed, not derived from the pipeline's stall bookkeeping."""
+
+    def __init__(self, sim):
+        self.log = []
+        im = sim.state.instruction_memory
+        orig = im.read_instruction
+        log = self.log
+
+        def read_instruction(address, _orig=orig):
+            ins = _orig(address)
+            log.append((address, ins))
+            return ins
+
+        im.read_instruction = read_instruction
 
 
 def exc_info(e):
@@ -142,7 +173,7 @@ def cache_counters(sim):
     )
 
 
-def run_ref(trace, dc=None, ic=None, cap=None, prog=None, hook=None):
+def run_ref(trace, dc=None, ic=None, cap=None, prog=None, hook=None, spy=False):
     """Single-cycle mode: the sequential reference.  Returns
     {"recs": [...], "sim", "exc", "capped"} with one record per executed instruction:
     (addr, index, redirect, is_ecall, exited, rd, rdval, out_len)."""
@@ -150,6 +181,7 @@ def run_ref(trace, dc=None, ic=None, cap=None, prog=None, hook=None):
     if cap is None:
         cap = trace["cfg"].get("cap", REF_CAP)
     sim = make_sim(trace, "single_stage_pipeline", True, dc, ic, prog)
+    fetch_spy = FetchSpy(sim) if spy else None
     decoy = Decoy(trace, True, dc, ic, prog)
     st = sim.state
     pm = st.performance_metrics
@@ -192,7 +224,7 @@ def run_ref(trace, dc=None, ic=None, cap=None, prog=None, hook=None):
             )
         )
     capped = len(recs) >= cap and exc is None and not _safe_done(sim)
-    return {"recs": recs, "sim": sim, "exc": exc, "capped": capped}
+    return {"recs": recs, "sim": sim, "exc": exc, "capped": capped, "fetches": fetch_spy.log if fetch_spy else None}
 
 
 def _safe_done(sim):
@@ -202,13 +234,15 @@ def _safe_done(sim):
         return False
 
 
-def run_five(trace, hz=True, dc=None, ic=None, max_ticks=3000, stop_after_retired=None, prog=None, on_tick=None):
+def run_five(trace, hz=True, dc=None, ic=None, max_ticks=3000, stop_after_retired=None, prog=None, on_tick=None, spy=False):
     """Five-stage mode, one tick at a time.  Returns {"ticks": [...], "sim", "exc", "done"};
     one record per tick:
       (tick, retired_addr, cycles, flushes, stalls, out_len, exit_code,
        dc_acc, dc_hits, ic_acc, ic_hits, stalled_pre, pc_pre, had_instr_pre, if_addr, sig, rdval,
-       mem_addr, mem_comparison)   # the instruction in the MEM latch and the pipeline's own branch evaluation"""
+       mem_addr, mem_comparison,   # the instruction in the MEM latch and the pipeline's own branch evaluation
+       decode_stall_requested)     # the ID latch carries a stall signal (public field of PipelineRegister)"""
     sim = make_sim(trace, "five_stage_pipeline", hz, dc, ic, prog)
+    fetch_spy = FetchSpy(sim) if spy else None
     decoy = Decoy(trace, hz, dc, ic, prog)
     st = sim.state
     pm = st.performance_metrics
@@ -227,7 +261,7 @@ def run_five(trace, hz=True, dc=None, ic=None, max_ticks=3000, stop_after_retire
         except Exception as e:  # noqa: BLE001
             exc = exc_info(e)
             break
-        stalled_pre = tuple(pl.stalled) if pl.stalled is not None else None
+        stalled_pre = _stalled(pl)
         pc_pre = st.program_counter
         try:
             had = bool(st.instruction_at_pc())
@@ -257,13 +291,14 @@ def run_five(trace, hz=True, dc=None, ic=None, max_ticks=3000, stop_after_retire
         dca, dch, ica, ich = cache_counters(sim)
         sig = (
             tuple(_MN_CLASS.get(p.instruction.mnemonic, "?") for p in prs),
-            tuple(pl.stalled) if pl.stalled is not None else None,
+            _stalled(pl),
             pm.flushes - fl0,
         )
         rec = (
             t, raddr, pm.cycles, pm.flushes, pm.stalls, len(st.output), st.exit_code,
             dca, dch, ica, ich, stalled_pre, pc_pre, had, prs[0].address_of_instruction, sig, rdval,
             prs[3].address_of_instruction, getattr(prs[3], "comparison", None),
+            getattr(prs[1], "stall_signal", None) is not None,
         )
         ticks.append(rec)
         if on_tick:
@@ -274,4 +309,4 @@ def run_five(trace, hz=True, dc=None, ic=None, max_ticks=3000, stop_after_retire
         done = _safe_done(sim)
     if not done and exc is None:
         done = _safe_done(sim)
-    return {"ticks": ticks, "sim": sim, "exc": exc, "done": done}
+    return {"ticks": ticks, "sim": sim, "exc": exc, "done": done, "fetches": fetch_spy.log if fetch_spy else None}
